@@ -10,8 +10,8 @@ import (
 
 // ProgGen generates structured, terminating programs.
 type ProgGen struct {
-	R  *rand.Rand
-	E  *ExprGen
+	R *rand.Rand
+	E *ExprGen
 	// CondFields is the number of boolean-ish object fields C1..Ck that
 	// conditions are drawn from (so that all truth assignments can be run).
 	CondFields int
@@ -35,11 +35,11 @@ type ProgGen struct {
 }
 
 type fnInfo struct {
-	name    string
-	params  []string
-	value   bool // returns a value on every path
-	rec     bool // recursive on its first parameter (must be a small int)
-	locals  []string
+	name   string
+	params []string
+	value  bool // returns a value on every path
+	rec    bool // recursive on its first parameter (must be a small int)
+	locals []string
 }
 
 var globalNames = []string{"g1", "g2", "x", "y", "a", "acc"}
